@@ -36,6 +36,20 @@ TTotals ==
             BagOfSeq(Ev.log_prob) = BagOfSeq(Ev.log_lik) (+) BagOfSeq(Ev.log_prior))
   /\ UNCHANGED <<gvars, svars>> /\ Step
 
+\* a targeted update of one of the three totals (auto-update may be off, ancestors outdated): afterwards that total
+\* is the from-scratch sum
+TotalInputs(which) ==
+  CASE which = "log_prob" -> (IF Hdr.user_lp # 0 THEN {Hdr.user_lp} ELSE ProbInputs(DSet))
+    [] which = "log_lik" -> (IF Hdr.user_ll # 0 THEN {Hdr.user_ll} ELSE LikInputs(DSet, HasVar, Obsd))
+    [] which = "log_prior" -> (IF Hdr.user_lpr # 0 THEN {Hdr.user_lpr} ELSE PriorInputs(DSet, HasVar, Param))
+TTargetedTotal ==
+  /\ IsEvent("targeted_total")
+  /\ (IF TotalInputs(Ev.which) = {} THEN UNCHANGED <<gvars, svars>> ELSE UpdateTargets(TotalInputs(Ev.which)))
+  /\ CASE Ev.which = "log_prob" -> Total("log_prob", Hdr.user_lp, ProbInputs(DSet))
+       [] Ev.which = "log_lik" -> Total("log_lik", Hdr.user_ll, LikInputs(DSet, HasVar, Obsd))
+       [] Ev.which = "log_prior" -> Total("log_prior", Hdr.user_lpr, PriorInputs(DSet, HasVar, Param))
+  /\ Step
+
 \* --- numeric regime: no graph state, every event is self-contained ---------------------
 Sel(x, mode) == CASE mode = "all" -> TRUE
                  [] mode = "lik" -> x.has_var /\ x.observed
@@ -71,5 +85,5 @@ TTotalsNum ==
             /\ Close(Ev.log_prior, Ev.alt_log_prior))
   /\ UNCHANGED <<gvars, svars>> /\ Step
 
-TNext2 == TNext \/ TTotals \/ TTotalsNum
+TNext2 == TNext \/ TTotals \/ TTargetedTotal \/ TTotalsNum
 =============================================================================
